@@ -14,6 +14,7 @@ import (
 	"bytes"
 	"encoding/hex"
 	"encoding/xml"
+	"reflect"
 	"strconv"
 	"strings"
 	"time"
@@ -393,4 +394,72 @@ func c04Message(msg []byte, vary int) {
 		}
 	}
 	verifAssert("same number of elements", len(a) == len(b))
+}
+
+// VerifC04_Document: forward direction at document level. A typed message of
+// operation opIdx (all-present shape; numbers, byte strings, big integers,
+// dates symbolic; text strings symbolic lower-case letters; enumerations and
+// masks concrete) is written as XML (enc 1) or JSON (enc 2), read back through
+// the real tokeniser and the real typed decoder, and its binary encoding is
+// compared with the binary encoding of the original.
+func VerifC04_Document(dir, opIdx, enc, minor int) {
+	ops := vfOperations()
+	if opIdx >= len(ops) {
+		verifReach("no such operation")
+		return
+	}
+	op := ops[opIdx]
+	sh := vfShapeOf(0, minor)
+	sh.text = true
+	sh.objIdx, sh.fmtIdx = 1, 0
+	var msg any
+	if dir == 0 {
+		pl := newRequestPayload(op)
+		vfPopulate(reflect.ValueOf(pl).Elem(), sh, "pl", false)
+		m := &RequestMessage{}
+		vfPopulate(reflect.ValueOf(&m.Header).Elem(), sh, "hdr", false)
+		m.Header.BatchCount = 1
+		m.BatchItem = []RequestBatchItem{{Operation: op, RequestPayload: pl}}
+		msg = m
+	} else {
+		pl := newResponsePayload(op)
+		vfPopulate(reflect.ValueOf(pl).Elem(), sh, "pl", false)
+		m := &ResponseMessage{}
+		vfPopulate(reflect.ValueOf(&m.Header).Elem(), sh, "hdr", false)
+		m.Header.BatchCount = 1
+		m.BatchItem = []ResponseBatchItem{{Operation: op, ResultStatus: ResultStatusSuccess, ResponsePayload: pl}}
+		msg = m
+	}
+	bin := append([]byte(nil), ttlv.MarshalTTLV(msg)...)
+	var doc []byte
+	if enc == 1 {
+		doc = ttlv.MarshalXML(msg)
+	} else {
+		doc = ttlv.MarshalJSON(msg)
+	}
+	var back any
+	var err error
+	if dir == 0 {
+		var m RequestMessage
+		if enc == 1 {
+			err = ttlv.UnmarshalXML(doc, &m)
+		} else {
+			err = ttlv.UnmarshalJSON(doc, &m)
+		}
+		back = &m
+	} else {
+		var m ResponseMessage
+		if enc == 1 {
+			err = ttlv.UnmarshalXML(doc, &m)
+		} else {
+			err = ttlv.UnmarshalJSON(doc, &m)
+		}
+		back = &m
+	}
+	verifAssert("the document is well-formed for the tokeniser and decodes", err == nil)
+	if err != nil {
+		return
+	}
+	verifReach("decoded")
+	verifAssert("binary encoding of the decoded document is byte-identical to the original's", verifBytesEq(bin, ttlv.MarshalTTLV(back)))
 }
